@@ -217,11 +217,12 @@ def run(tier):
                                       "body": cps(mt), "impl": o})
     # (iii) requests
     schema = build_schema("""
-      type Query { a: Int  s(x: String = "d", n: Int!): String  o: Query  nn: Int!  l: [Int!]  e: E  i(v: In): Int
+      type Query { a: Int  s(x: String = "d", n: Int!): String  o: Query  nn: Int!  l: [Int!]  e: E  i(v: In): Int  one(o: One, os: [One!]): Int
                    u: U  it: I }
       type Mutation { m(x: Int): Int }
       type Subscription { a: Int  o: Query }
-      enum E { A B LONGER }  input In { a: Int! = 1  b: [In!]  c: E  longer: Int }
+      enum E { A B LONGER }  input In { a: Int! = 1  b: [In!]  c: E  longer: Int  one: One }
+      input One @oneOf { x: Int  y: String  z: One }
       interface I { a: Int }  type T implements I { a: Int  t: String }  union U = T | Query
     """)
     pool = exc_pool()
@@ -235,7 +236,19 @@ def run(tier):
             "{ ...F } fragment F on Query { a ...G } fragment G on Query { o { ...F } ...F }",
             "mutation { ...F @defer } fragment F on Mutation { ...G } fragment G on Mutation { m ...F @defer }",
             "{ o { ...F } } fragment F on Query { o { ...F } }", "{ u { __typename @stream } it { __typename @stream a @stream } }",
-            "{ u { __typename @defer } l @stream(initialCount: -1) }", "{ s(n: 1, x: \"\\ud800\") }", "fragment F on Query { a } { ...F ...F }"]
+            "{ u { __typename @defer } l @stream(initialCount: -1) }",
+            # OneOf literals with zero / unknown / several / null members, at every nesting
+            "{ one(o: {}) }", "{ one(o: {zz: 1}) }", "{ one(o: {x: 1, y: \"s\"}) }", "{ one(o: {x: null}) }", "{ one(os: [{}]) }",
+            "{ one(o: {z: {}}) }", "{ one(o: {z: {z: {zz: 1}}}) }", "{ i(v: {one: {}}) }", "{ i(v: {b: [{one: {zz: null}}]}) }",
+            "query Q($p: One = {}) { one(o: $p) }", "query Q($p: [One!] = [{}, {x: 1, y: \"\"}]) { one(os: $p) }",
+            "query Q($v: Int) { one(o: {x: $v}) }", "query Q($v: One) { one(o: $v) }", "{ one(o: []) }", "{ one(o: 1) }", "{ s(n: 1, x: \"\\ud800\") }", "fragment F on Query { a } { ...F ...F }"]
+    # names with digit runs beyond CPython's int<->str conversion limit, defined in the document and referred to by
+    # a near miss (suggestion sorting), as type, input type, directive, fragment, variable, argument and field names
+    dig = "1" * 4400
+    # (the near miss differs in letter case only, so the quadratic edit-distance computation is short-circuited)
+    docs += ["type T%s { x: Int } { ... on t%s { a } }" % (dig, dig), "query($v: i%s) { a } input I%s { x: Int }" % (dig, dig),
+             "directive @D%s on FIELD { a @d%s }" % (dig, dig), "fragment F%s on Query { a } { ...f%s }" % (dig, dig),
+             "enum E%s { A%s } { a }" % (dig, dig)]
     for i in range(30 if quick else 400):
         g = gen_doc.Gen(rng, depth=2)
         docs.append(gen_doc.join_random(g.operation(), rng))
@@ -243,7 +256,8 @@ def run(tier):
                 {"v": {"a": 1}}, {"w": {"a": None}}, {"w": {"b": [{"a": 1, "zz": 2}]}}, {"v": 1, "w": "x"},
                 {"v": True}, {"v": 1.5}, {"v": object()}, {"w": {"c": "C"}}, {"v": 1, "extra": math.inf},
                 {"v": b"1"}, {"w": [1, 2]}, {"v": -2 ** 31 - 1}, {"w": {1: "x"}}, {1: 2, "v": 1}, {"w": {None: 1, "a": 1}},
-                {"w": {("t",): 1}}, {"v": [None, {2: 3}]}, {"w": {"b": [{3.5: 1}]}}]
+                {"w": {("t",): 1}}, {"v": [None, {2: 3}]}, {"w": {"b": [{3.5: 1}]}}, {"v": {}}, {"v": {"zz": 1}}, {"v": {"x": None}},
+                {"v": {"x": 1, "y": "s"}}, {"w": {"one": {}}}, {"p": {}}, {"p": [{}]}]
     op_pool = [None, "", "Q", "A", "B", "nope", "\ud800", "M", "S"]
     nreq = 0
     for d in docs:
@@ -306,12 +320,12 @@ def run(tier):
     universe = [huge, -huge, 2 ** 31, -2 ** 31 - 1, 2 ** 53 + 1, float("nan"), float("inf"), -0.0, 1e308 * 10, "", "\u0130",
                 "\u0130\u0130\u0130", "a\u0130", "\ud800", "A", "a", "b", "1", "1e999", "0x10", " 1 ", "true", b"", bytearray(b"1"),
                 [], [[]], [huge], [None], [1, "\u0130"], {}, {"\u0130": 1}, {"a": huge}, {"c": "\u0130"}, {"c": "\u0130\u0130\u0130"}, {"\u0130\u0130\u0130": 1}, {"l\u0130nger": 1}, {"zz": 1}, {"A": 1}, {"aa": 1},
-                {"a": 1, "b": [{"a": 1, "c": "b"}]}, {"b": {"a": 1}}, {"b": [[]]}, DictSub(a=1), StrSub("A"), object(),
+                {"a": 1, "b": [{"a": 1, "c": "b"}]}, {"b": {"a": 1}}, {"x": 1}, {"x": None}, {"x": 1, "y": "s"}, {"z": {}}, [{}], [{"x": 1}, {"zz": 2}], {"b": [[]]}, DictSub(a=1), StrSub("A"), object(),
                 HostileRepr(), HostileHash(), (1, 2), {1, 2}, frozenset(), range(3), iter([1]), decimal.Decimal("1.5"),
                 fractions.Fraction(1, 3), 1j, True, False, None, type, len, NotImplemented, Ellipsis]
     vtypes = [("Int", "s(n: 1) q: i(v: {a: $v})"), ("Int!", "s(n: $v)"), ("Float", "a"), ("String", "s(n: 1, x: $v)"),
               ("Boolean", "a @skip(if: $v)" if False else "a"), ("ID", "a"), ("E", "i(v: {c: $v})"), ("In", "i(v: $v)"),
-              ("[Int!]", "a"), ("[In]", "a"), ("[[E!]]!", "a"), ("In!", "i(v: $v)")]
+              ("[Int!]", "a"), ("[In]", "a"), ("[[E!]]!", "a"), ("In!", "i(v: $v)"), ("One", "one(o: $v)"), ("[One!]", "one(os: $v)")]
     nhost = 0
     for ty, sel in vtypes:
         d = "query Q($v: %s) { %s }" % (ty, sel)
